@@ -38,6 +38,12 @@ type userArr struct{ t, i int }
 
 func (u userArr) MarshalZerologArray(a *zerolog.Array) { a.Int(u.t).Str("ua").Int(u.i) }
 
+// errObj is an error that renders itself as an object (Err / Array.Err then borrow a scratch event).
+type errObj struct{ n int }
+
+func (e errObj) Error() string                          { return fmt.Sprintf("errObj%d", e.n) }
+func (e errObj) MarshalZerologObject(ev *zerolog.Event) { ev.Int("n", e.n).Str("k", "errobj") }
+
 type addHook struct{}
 
 func (addHook) Run(e *zerolog.Event, l zerolog.Level, m string) { e.Str("hook", "h:"+m) }
@@ -56,6 +62,10 @@ func emit(lg *zerolog.Logger, kind string, t, i int) {
 			Array("a", zerolog.Arr().Int(t).Object(&obj{i}).Dict(zerolog.Dict().Int("q", t))).Object("o", &obj{t}).Msg("nested")
 	case "marsh": // a user LogArrayMarshaler, an Errs and an Err of an object marshaler: the pooled scratch paths
 		lg.Info().Int("t", t).Array("m", userArr{t, i}).Errs("es", []error{fmt.Errorf("e%d", i), nil}).Msg("marsh")
+	case "scratch": // every path that borrows a pooled scratch event or array while the event is being built
+		lg.Error().Int("t", t).Array("a", zerolog.Arr().Err(errObj{t}).Object(&obj{i}).Err(fmt.Errorf("p%d", i)).Dict(zerolog.Dict().Array("in", zerolog.Arr().Int(i)))).
+			Errs("es", []error{errObj{i}, nil, fmt.Errorf("q%d", t)}).EmbedObject(&obj{t + 10}).Err(errObj{t + 20}).
+			Func(func(e *zerolog.Event) { e.Dict("fd", zerolog.Dict().Int("f", i)) }).Interface("if", map[string]int{"t": t}).Stringer("st", nil).Msg("scratch")
 	case "drop": // discarded by discardHook (loggers without it write it)
 		lg.Info().Int("t", t).Int("i", i).Msg("drop")
 	case "fields":
@@ -345,6 +355,8 @@ func plans(tier string) []drv.Plan {
 	add("derived/plain/tiny,tiny;tiny", b2)
 	add("shared/plain/marsh,nested;nested", b2)
 	add("children/plain/marsh;marsh,nested", b2)
+	add("shared/plain/scratch;scratch", 3)
+	add("hooked/plain/scratch,tiny;nested", 3)
 	add("discarding/plain/drop,tiny;tiny,drop", b2)
 	add("discarding/plain/drop;drop;nested", 3)
 	add("derived/plain/nested;tiny;tiny", 3)
